@@ -25,14 +25,54 @@ pub fn parse(doc: &Value) -> Result<Typed, String> {
     })
 }
 
+/// One matrix of the statement: its domain and the kinds of its opening points
+/// (0 = zeta, 1 = zeta * g with g the generator of the matrix domain).
+#[derive(Clone)]
+pub struct StmtMat {
+    pub domain: Domain,
+    pub log_size: usize,
+    pub kinds: Vec<u8>,
+}
+
+/// The statement minus commitments and claimed values: per round, per matrix, the domain and the
+/// opening points. The honest statement comes from the parameter point; structural mutants of the
+/// claims (`claimed` rounds / matrices / points) carry the same structural change here, because the
+/// verifier interfaces take the points and the claimed values zipped.
+pub type Stmt = Vec<Vec<StmtMat>>;
+
+pub fn kinds_of(s: &MatSpec) -> Vec<u8> {
+    let mut v = vec![];
+    if s.points & 1 != 0 {
+        v.push(0);
+    }
+    if s.points & 2 != 0 {
+        v.push(1);
+    }
+    v
+}
+
+fn point_of_kind(zeta: Challenge, d: &Domain, kind: u8) -> Challenge {
+    if kind == 0 { zeta } else { zeta * d.subgroup_generator() }
+}
+
+/// Does the typed document have the nesting the statement has (rounds, matrices, points)?
+pub fn stmt_matches(stmt: &Stmt, t: &Typed) -> bool {
+    stmt.len() == t.coms.len()
+        && stmt.len() == t.claimed.len()
+        && stmt.iter().zip(&t.claimed).all(|(sb, cb)| {
+            sb.len() == cb.len() && sb.iter().zip(cb).all(|(sm, cm)| sm.kinds.len() == cm.len())
+        })
+}
+
 /// Everything that is fixed for one parameter point (never mutated).
 pub struct Ctx {
     pub params: Params,
     pub pcs: ThePcs,
     /// Honest commitments: the transcript prefix that puts the challenger in its pre-PCS state.
     pub ctx_coms: Vec<Com>,
-    pub domains: Vec<Vec<Domain>>,
-    pub points: Vec<Vec<Vec<Challenge>>>,
+    pub zeta: Challenge,
+    /// The honest statement.
+    pub stmt: Stmt,
 }
 
 fn domain_of(pcs: &ThePcs, s: &MatSpec) -> Domain {
@@ -64,31 +104,41 @@ fn fresh_challenger(ctx_coms: &[Com]) -> (Challenger, Challenge) {
 pub fn make_ctx(params: &Params, ctx_coms: Vec<Com>) -> Ctx {
     let pcs = make_pcs(params);
     let (_, zeta) = fresh_challenger(&ctx_coms);
-    let domains: Vec<Vec<Domain>> =
-        params.batches.iter().map(|b| b.iter().map(|s| domain_of(&pcs, s)).collect()).collect();
-    let points = params
+    let stmt: Stmt = params
         .batches
         .iter()
-        .zip(&domains)
-        .map(|(b, ds)| b.iter().zip(ds).map(|(s, d)| points_of(zeta, d, s)).collect())
+        .map(|b| {
+            b.iter()
+                .map(|s| StmtMat { domain: domain_of(&pcs, s), log_size: s.log_size, kinds: kinds_of(s) })
+                .collect()
+        })
         .collect();
-    Ctx { params: params.clone(), pcs, ctx_coms, domains, points }
+    Ctx { params: params.clone(), pcs, ctx_coms, zeta, stmt }
 }
 
-/// Native `Pcs::verify` with a fresh challenger in the pre-PCS state.
+/// Native `Pcs::verify` with a fresh challenger in the pre-PCS state (honest statement).
 pub fn native(cx: &Ctx, t: &Typed) -> V {
+    native_s(cx, &cx.stmt, t)
+}
+
+/// Native `Pcs::verify` for the statement `stmt` (which must satisfy `stmt_matches(stmt, t)`).
+pub fn native_s(cx: &Ctx, stmt: &Stmt, t: &Typed) -> V {
+    if !stmt_matches(stmt, t) {
+        return V::Reject("harness: statement and claims differ in shape".into());
+    }
     let r = guarded(|| {
         let (mut ch, _) = fresh_challenger(&cx.ctx_coms);
         let mut cwp = vec![];
         for (b, com) in t.coms.iter().enumerate() {
             let mut mats = vec![];
-            for (m, d) in cx.domains[b].iter().enumerate() {
-                let pv: Vec<(Challenge, Vec<Challenge>)> = cx.points[b][m]
+            for (m, sm) in stmt[b].iter().enumerate() {
+                let pv: Vec<(Challenge, Vec<Challenge>)> = sm
+                    .kinds
                     .iter()
                     .zip(t.claimed[b][m].iter())
-                    .map(|(z, vals)| (*z, vals.clone()))
+                    .map(|(k, vals)| (point_of_kind(cx.zeta, &sm.domain, *k), vals.clone()))
                     .collect();
-                mats.push((*d, pv));
+                mats.push((sm.domain, pv));
             }
             cwp.push((com.clone(), mats));
         }
@@ -114,6 +164,11 @@ type RP = ThePcs;
 /// pre-PCS state, claimed evaluations observed, `get_challenges_circuit` (betas, PoW checks),
 /// `verify_circuit` (query index sampling + `verify_fri_circuit` with MMCS verification).
 pub fn build(cx: &Ctx, t: &Typed) -> Result<Built, String> {
+    build_s(cx, &cx.stmt, t)
+}
+
+/// `build` for the statement `stmt` (which must satisfy `stmt_matches(stmt, t)`).
+pub fn build_s(cx: &Ctx, stmt: &Stmt, t: &Typed) -> Result<Built, String> {
     let p = &cx.params;
     let mut cb = CircuitBuilder::<Challenge>::new();
     enable_perm(&mut cb);
@@ -144,26 +199,24 @@ pub fn build(cx: &Ctx, t: &Typed) -> Result<Built, String> {
     // Opening point targets: zeta, and zeta * g (one shared target per domain size).
     let mut next_cache: BTreeMap<usize, Target> = BTreeMap::new();
     let mut coms_t = vec![];
-    for (b, batch) in p.batches.iter().enumerate() {
-        if b >= com_t.len() || b >= claimed_t.len() || claimed_t[b].len() != batch.len() {
-            return Err("harness: claimed/commitment shape differs from parameter point".into());
-        }
+    if !stmt_matches(stmt, t) {
+        return Err("harness: claimed/commitment shape differs from the statement".into());
+    }
+    for (b, batch) in stmt.iter().enumerate() {
         let mut mats = vec![];
         for (m, s) in batch.iter().enumerate() {
-            let d = cx.domains[b][m];
+            let d = s.domain;
             let mut zs = vec![];
-            if s.points & 1 != 0 {
-                zs.push(zeta);
-            }
-            if s.points & 2 != 0 {
-                let zn = *next_cache.entry(s.log_size).or_insert_with(|| {
-                    let g = cb.define_const(Challenge::from(d.subgroup_generator()));
-                    cb.mul(zeta, g)
-                });
-                zs.push(zn);
-            }
-            if zs.len() != claimed_t[b][m].len() {
-                return Err("harness: claimed point count differs from parameter point".into());
+            for k in &s.kinds {
+                if *k == 0 {
+                    zs.push(zeta);
+                } else {
+                    let zn = *next_cache.entry(s.log_size).or_insert_with(|| {
+                        let g = cb.define_const(Challenge::from(d.subgroup_generator()));
+                        cb.mul(zeta, g)
+                    });
+                    zs.push(zn);
+                }
             }
             let pv: Vec<(Target, Vec<Target>)> =
                 zs.into_iter().zip(claimed_t[b][m].iter().cloned()).collect();
@@ -307,6 +360,25 @@ pub enum ProverFault {
     Grind(usize),
 }
 
+/// Edits of the stream of base-field elements a challenger observes (positions count the
+/// elements offered by the protocol code, starting at 0 for the first claimed-evaluation
+/// coefficient): `skips` = ranges (start, len) that are *not* absorbed, `inserts` = (position,
+/// elements) absorbed *before* the element at that position (or before whatever the protocol does
+/// next once that many elements have been offered). Used for the structural prover faults: the
+/// prover's transcript becomes the transcript a verifier derives from a statement/proof whose
+/// nesting differs from what the prover really opened.
+#[derive(Clone, Default)]
+pub struct StreamEdits {
+    pub skips: Vec<(usize, usize)>,
+    pub inserts: Vec<(usize, Vec<F>)>,
+}
+
+impl StreamEdits {
+    pub fn total(&self) -> usize {
+        self.skips.iter().map(|s| s.1).sum::<usize>() + self.inserts.len()
+    }
+}
+
 #[derive(Clone)]
 pub struct EvilChallenger {
     inner: Challenger,
@@ -314,32 +386,68 @@ pub struct EvilChallenger {
     obs: usize,
     grinds: usize,
     pub hit: bool,
+    edits: StreamEdits,
+    /// number of skipped elements + number of insertions performed so far
+    pub edits_done: usize,
+}
+
+impl EvilChallenger {
+    pub fn new(inner: Challenger, fault: ProverFault, edits: StreamEdits) -> Self {
+        Self { inner, fault, obs: 0, grinds: 0, hit: false, edits, edits_done: 0 }
+    }
+    /// Absorb the insertions that are due at the current stream position.
+    fn flush(&mut self) {
+        if self.edits.inserts.is_empty() {
+            return;
+        }
+        let mut i = 0;
+        while i < self.edits.inserts.len() {
+            if self.edits.inserts[i].0 == self.obs {
+                let (_, vals) = self.edits.inserts.remove(i);
+                for v in vals {
+                    self.inner.observe(v);
+                }
+                self.edits_done += 1;
+            } else {
+                i += 1;
+            }
+        }
+    }
 }
 
 impl CanObserve<F> for EvilChallenger {
     fn observe(&mut self, v: F) {
+        self.flush();
         let v2 = if self.fault == ProverFault::Observe(self.obs) {
             self.hit = true;
             v + F::ONE
         } else {
             v
         };
+        let skipped = self.edits.skips.iter().any(|(s, l)| self.obs >= *s && self.obs < *s + *l);
         self.obs += 1;
-        self.inner.observe(v2);
+        if skipped {
+            self.edits_done += 1;
+        } else {
+            self.inner.observe(v2);
+        }
     }
 }
 impl CanObserve<p3_symmetric::MerkleCap<F, [F; DIGEST_ELEMS]>> for EvilChallenger {
     fn observe(&mut self, c: p3_symmetric::MerkleCap<F, [F; DIGEST_ELEMS]>) {
+        self.flush();
         self.inner.observe(c);
     }
 }
 impl CanSample<F> for EvilChallenger {
     fn sample(&mut self) -> F {
+        self.flush();
         self.inner.sample()
     }
 }
 impl CanSampleBits<usize> for EvilChallenger {
     fn sample_bits(&mut self, bits: usize) -> usize {
+        self.flush();
         self.inner.sample_bits(bits)
     }
 }
@@ -347,6 +455,7 @@ impl FieldChallenger<F> for EvilChallenger {}
 impl GrindingChallenger for EvilChallenger {
     type Witness = F;
     fn grind(&mut self, bits: usize) -> F {
+        self.flush();
         let idx = self.grinds;
         self.grinds += 1;
         if self.fault == ProverFault::Grind(idx) && bits > 0 {
@@ -377,6 +486,20 @@ fn bump_coeff(x: &mut Challenge, c: usize) {
 /// view: commitments, claimed evaluations, proof, and a description of where the fault landed.
 #[allow(clippy::type_complexity)]
 pub fn prove(params: &Params, fault: ProverFault) -> (Vec<Com>, Claimed, Proof, Option<String>) {
+    let (coms, opened, proof, landed, _) = prove_ext(params, fault, None, StreamEdits::default());
+    (coms, opened, proof, landed)
+}
+
+/// `prove` with the opening points actually used by the prover overridden (`open_kinds`, per
+/// round / matrix: point kinds) and with edits of the observation stream. The last component is
+/// the number of stream edits that were performed.
+#[allow(clippy::type_complexity)]
+pub fn prove_ext(
+    params: &Params,
+    fault: ProverFault,
+    open_kinds: Option<&Vec<Vec<Vec<u8>>>>,
+    edits: StreamEdits,
+) -> (Vec<Com>, Claimed, Proof, Option<String>, usize) {
     let d = <Challenge as BasedVectorSpace<F>>::DIMENSION;
     let pcs = make_pcs(params);
     let mut rng = SmallRng::seed_from_u64(params.data_seed);
@@ -396,12 +519,24 @@ pub fn prove(params: &Params, fault: ProverFault) -> (Vec<Com>, Claimed, Proof, 
         datas.push(pd);
     }
     let (ch0, zeta) = fresh_challenger(&coms);
-    let mut ch = EvilChallenger { inner: ch0, fault, obs: 0, grinds: 0, hit: false };
+    let mut ch = EvilChallenger::new(ch0, fault, edits);
     let open_data = datas
         .iter()
         .zip(&params.batches)
-        .map(|(pd, b)| {
-            (pd, b.iter().map(|s| points_of(zeta, &domain_of(&pcs, s), s)).collect::<Vec<_>>())
+        .enumerate()
+        .map(|(bi, (pd, b))| {
+            let pts = b
+                .iter()
+                .enumerate()
+                .map(|(mi, s)| match open_kinds {
+                    Some(k) => {
+                        let dom = domain_of(&pcs, s);
+                        k[bi][mi].iter().map(|kind| point_of_kind(zeta, &dom, *kind)).collect()
+                    }
+                    None => points_of(zeta, &domain_of(&pcs, s), s),
+                })
+                .collect::<Vec<Vec<Challenge>>>();
+            (pd, pts)
         })
         .collect::<Vec<_>>();
     let (mut opened, mut proof): (Claimed, Proof) =
@@ -452,7 +587,7 @@ pub fn prove(params: &Params, fault: ProverFault) -> (Vec<Com>, Claimed, Proof, 
     if !ch.hit {
         landed = None;
     }
-    (coms, opened, proof, landed)
+    (coms, opened, proof, landed, ch.edits_done)
 }
 
 /// All prover faults applicable to a parameter point (given the honest proof's shape).
@@ -692,4 +827,293 @@ pub fn replay_one(params: &Params, path: &[Seg], newv: u64) -> Result<(V, V), St
     let mut doc = prep.doc.clone();
     mutate_and_judge(&cx, &built, &mut doc, path, newv)
         .ok_or_else(|| "mutant does not deserialize".to_string())
+}
+
+// ---------------------------------------------------------------------------------------------
+// Structural sweep: array / optional nodes of the document, circuit rebuilt per mutant
+// ---------------------------------------------------------------------------------------------
+
+/// Circuit verdict with the circuit rebuilt for (statement, document), and the stage that
+/// produced the verdict.
+pub fn run_rebuilt_s(cx: &Ctx, stmt: &Stmt, t: &Typed) -> (V, &'static str) {
+    match guarded(|| build_s(cx, stmt, t)) {
+        Ok(Ok(b)) => {
+            let v = run_built(cx, &b, t);
+            let st = if matches!(v, V::Panic(_)) { "run-panic" } else { "run" };
+            (v, st)
+        }
+        Ok(Err(e)) => (V::Reject(format!("builder:{}", err_class(&e))), "build"),
+        Err(p) => (V::Panic(panic_site(&p)), "build-panic"),
+    }
+}
+
+/// The statement of a structural mutant: operations on the nesting of `claimed` (rounds, matrices,
+/// points) are applied to the statement as well; everything else leaves it alone.
+pub fn mutant_stmt(stmt: &Stmt, m: &SMut) -> Stmt {
+    let mut s = stmt.clone();
+    if m.path.first() != Some(&Seg::Key("claimed".into())) {
+        return s;
+    }
+    match &m.path[1..] {
+        [] => {
+            m.op.apply_vec(&mut s);
+        }
+        [Seg::Idx(b)] => {
+            if let Some(r) = s.get_mut(*b) {
+                m.op.apply_vec(r);
+            }
+        }
+        [Seg::Idx(b), Seg::Idx(k)] => {
+            if let Some(x) = s.get_mut(*b).and_then(|r| r.get_mut(*k)) {
+                m.op.apply_vec(&mut x.kinds);
+            }
+        }
+        _ => {}
+    }
+    s
+}
+
+pub enum StructRes {
+    Noop,
+    DeserFail,
+    Done(V, V, &'static str),
+}
+
+/// One structural mutant: mutate (in place, restored afterwards), deserialise, native verdict vs
+/// verdict of the circuit rebuilt for the mutant.
+pub fn struct_one(cx: &Ctx, doc: &mut Value, m: &SMut) -> StructRes {
+    let rounds = is_rounds_node(&m.path);
+    let old = leaf_mut(doc, &m.path).clone();
+    let old_coms = if rounds { Some(doc["commitments"].clone()) } else { None };
+    let mut changed = apply_sop(doc, &m.path, m.op);
+    if rounds {
+        // the swap of two rounds is a change even if their claims happen to be equal
+        let c2 = match doc["commitments"].as_array_mut() {
+            Some(a) => m.op.apply_vec(a),
+            None => false,
+        };
+        changed = changed && c2;
+    }
+    let parsed = if changed { Some(parse(doc)) } else { None };
+    *leaf_mut(doc, &m.path) = old;
+    if let Some(c) = old_coms {
+        doc["commitments"] = c;
+    }
+    let t = match parsed {
+        None => return StructRes::Noop,
+        Some(Err(_)) => return StructRes::DeserFail,
+        Some(Ok(t)) => t,
+    };
+    let stmt = mutant_stmt(&cx.stmt, m);
+    if !stmt_matches(&stmt, &t) {
+        // cannot happen by construction (the same operation on both nestings)
+        return StructRes::Noop;
+    }
+    let n = native_s(cx, &stmt, &t);
+    let (c, stage) = run_rebuilt_s(cx, &stmt, &t);
+    StructRes::Done(n, c, stage)
+}
+
+pub fn sweep_struct(prep: &Prepared, lo: usize, hi: usize) -> StructOut {
+    let mut out = StructOut::default();
+    let honest = match parse(&prep.doc) {
+        Ok(t) => t,
+        Err(e) => {
+            out.harness_error = Some(e);
+            return out;
+        }
+    };
+    let cx = make_ctx(&prep.params, honest.coms.clone());
+    let mut doc = prep.doc.clone();
+    for i in lo..hi.min(prep.smuts.len()) {
+        match struct_one(&cx, &mut doc, &prep.smuts[i]) {
+            StructRes::Noop => out.noop.push(i),
+            StructRes::DeserFail => out.deser_fail.push(i),
+            StructRes::Done(n, c, stage) => out.outcomes.push(SOutcome { idx: i, native: n, circuit: c, stage }),
+        }
+    }
+    out
+}
+
+pub fn replay_struct(params: &Params, m: &SMut) -> Result<SOutcome, String> {
+    let prep = prepare(params);
+    if !matches!(prep.honest, Honest::Verdicts(V::Accept, _)) {
+        return Err(format!("honest stage differs on replay: {:?}", prep.honest));
+    }
+    let honest = parse(&prep.doc)?;
+    let cx = make_ctx(params, honest.coms.clone());
+    let mut doc = prep.doc.clone();
+    match struct_one(&cx, &mut doc, m) {
+        StructRes::Noop => Err("mutant does not change the document".into()),
+        StructRes::DeserFail => Err("mutant does not deserialize".into()),
+        StructRes::Done(n, c, stage) => Ok(SOutcome { idx: 0, native: n, circuit: c, stage }),
+    }
+}
+
+/// The verifier's view under a structural prover fault (None = the transcript edit could not be
+/// realised). The statement stays the honest one.
+pub fn sfault_view(params: &Params, honest: &Typed, f: &SFault) -> Result<Option<Typed>, String> {
+    let d = <Challenge as BasedVectorSpace<F>>::DIMENSION;
+    let rand: Option<Claimed> = {
+        let mut p = honest.proof.clone();
+        rand_mut(&mut p).map(|r| r.clone())
+    };
+    let w = |b: usize, m: usize| honest.claimed[b][m][0].len();
+    let r = |b: usize, m: usize| rand.as_ref().map_or(0, |r| r[b][m][0].len());
+    let mut kinds: Vec<Vec<Vec<u8>>> =
+        params.batches.iter().map(|b| b.iter().map(kinds_of).collect()).collect();
+    match f {
+        SFault::DropPoint { b, m } => {
+            kinds[*b][*m].pop();
+        }
+        SFault::ExtraPoint { b, m } => {
+            let x = kinds[*b][*m][0];
+            kinds[*b][*m] = vec![x, 1 - x];
+        }
+        _ => {}
+    }
+    // stream position of the first coefficient of matrix (b, m) in the prover's run
+    let start = |b: usize, m: usize| -> usize {
+        let mut pos = 0;
+        for (bi, kb) in kinds.iter().enumerate() {
+            for (mi, km) in kb.iter().enumerate() {
+                if (bi, mi) == (b, m) {
+                    return pos;
+                }
+                pos += km.len() * (w(bi, mi) + r(bi, mi)) * d;
+            }
+        }
+        pos
+    };
+    let row = |b: usize, m: usize| (w(b, m) + r(b, m)) * d;
+    let mut edits = StreamEdits::default();
+    let mut fake: Vec<F> = vec![];
+    match f {
+        SFault::DropPoint { b, m } => {
+            let kept = kinds[*b][*m].len();
+            let mut rng = SmallRng::seed_from_u64(params.data_seed ^ 0xfa4e ^ ((*b as u64) << 8) ^ *m as u64);
+            fake = (0..w(*b, *m) * d).map(|_| F::from_u64(rng.random_range(0..F::ORDER_U64))).collect();
+            edits.inserts.push((start(*b, *m) + kept * row(*b, *m), fake.clone()));
+        }
+        SFault::DropRandRow { b, m } => {
+            let k = kinds[*b][*m].len();
+            edits.skips.push((start(*b, *m) + (k - 1) * row(*b, *m) + w(*b, *m) * d, r(*b, *m) * d));
+        }
+        SFault::DropRandMatrix { b } => {
+            let m = kinds[*b].len() - 1;
+            for p in 0..kinds[*b][m].len() {
+                edits.skips.push((start(*b, m) + p * row(*b, m) + w(*b, m) * d, r(*b, m) * d));
+            }
+        }
+        SFault::DropRandRound => {
+            let b = kinds.len() - 1;
+            for m in 0..kinds[b].len() {
+                for p in 0..kinds[b][m].len() {
+                    edits.skips.push((start(b, m) + p * row(b, m) + w(b, m) * d, r(b, m) * d));
+                }
+            }
+        }
+        SFault::ExtraPoint { b, m } => {
+            edits.skips.push((start(*b, *m) + row(*b, *m), row(*b, *m)));
+        }
+    }
+    if edits.total() == 0 {
+        return Ok(None);
+    }
+    let (coms, mut claimed, mut proof, _, done) = guarded(|| prove_ext(params, ProverFault::None, Some(&kinds), edits.clone()))
+        .map_err(|p| format!("faulty prover panicked: {}", panic_site(&p)))?;
+    if done != edits.total() {
+        return Ok(None);
+    }
+    if json!(coms) != json!(honest.coms) {
+        return Err("prover is not deterministic: commitments differ from the honest run".into());
+    }
+    // Self-check of the edited transcript: the native verifier, replaying the same stream edits,
+    // accepts what the prover really proved.
+    let ok = guarded(|| {
+        let pcs = make_pcs(params);
+        let (ch0, zeta) = fresh_challenger(&coms);
+        let mut ch = EvilChallenger::new(ch0, ProverFault::None, edits.clone());
+        let mut cwp = vec![];
+        for (b, com) in coms.iter().enumerate() {
+            let mut mats = vec![];
+            for (m, s) in params.batches[b].iter().enumerate() {
+                let dom = domain_of(&pcs, s);
+                let pv: Vec<(Challenge, Vec<Challenge>)> = kinds[b][m]
+                    .iter()
+                    .zip(claimed[b][m].iter())
+                    .map(|(k, vals)| (point_of_kind(zeta, &dom, *k), vals.clone()))
+                    .collect();
+                mats.push((dom, pv));
+            }
+            cwp.push((com.clone(), mats));
+        }
+        <ThePcs as Pcs<Challenge, EvilChallenger>>::verify(&pcs, cwp, &proof, &mut ch).is_ok()
+    });
+    if ok != Ok(true) {
+        return Err(format!("edited prover transcript is not self-consistent ({ok:?})"));
+    }
+    // the verifier's view
+    match f {
+        SFault::DropPoint { b, m } => {
+            let rowv: Vec<Challenge> = fake
+                .chunks(d)
+                .map(|c| Challenge::from_basis_coefficients_slice(c).expect("coefficients"))
+                .collect();
+            claimed[*b][*m].push(rowv);
+        }
+        SFault::DropRandRow { b, m } => {
+            rand_mut(&mut proof).ok_or("no random opened values")?[*b][*m].pop();
+        }
+        SFault::DropRandMatrix { b } => {
+            rand_mut(&mut proof).ok_or("no random opened values")?[*b].pop();
+        }
+        SFault::DropRandRound => {
+            rand_mut(&mut proof).ok_or("no random opened values")?.pop();
+        }
+        SFault::ExtraPoint { b, m } => {
+            claimed[*b][*m].pop();
+        }
+    }
+    Ok(Some(Typed { coms, claimed, proof }))
+}
+
+fn sfault_one(cx: &Ctx, honest: &Typed, f: &SFault) -> Result<Option<(V, V, &'static str)>, String> {
+    let Some(view) = sfault_view(&cx.params, honest, f)? else { return Ok(None) };
+    if !stmt_matches(&cx.stmt, &view) {
+        return Err("structural prover fault: view does not fit the honest statement".into());
+    }
+    let n = native(cx, &view);
+    let (c, stage) = run_rebuilt_s(cx, &cx.stmt, &view);
+    Ok(Some((n, c, stage)))
+}
+
+pub fn sweep_sfaults(prep: &Prepared, lo: usize, hi: usize) -> StructOut {
+    let mut out = StructOut::default();
+    let honest = match parse(&prep.doc) {
+        Ok(t) => t,
+        Err(e) => {
+            out.harness_error = Some(e);
+            return out;
+        }
+    };
+    let cx = make_ctx(&prep.params, honest.coms.clone());
+    for i in lo..hi.min(prep.sfaults.len()) {
+        match sfault_one(&cx, &honest, &prep.sfaults[i]) {
+            Ok(Some((n, c, stage))) => out.outcomes.push(SOutcome { idx: i, native: n, circuit: c, stage }),
+            Ok(None) => out.not_landed += 1,
+            Err(e) => out.harness_error = Some(e),
+        }
+    }
+    out
+}
+
+pub fn replay_sfault(params: &Params, f: &SFault) -> Result<SOutcome, String> {
+    let prep = prepare(params);
+    let honest = parse(&prep.doc)?;
+    let cx = make_ctx(params, honest.coms.clone());
+    match sfault_one(&cx, &honest, f)? {
+        Some((n, c, stage)) => Ok(SOutcome { idx: 0, native: n, circuit: c, stage }),
+        None => Err("fault did not land".into()),
+    }
 }
